@@ -90,7 +90,9 @@ def h_ops(p0: bool, p1: bool, p2: bool, c0: int, c1: int, c2: int, pre: int) -> 
             pre = "exp.dirty-2024/" if cube("dirname", False) else ""  # stores below a folder whose name contains '.dir'
             cache = env.local_odb(pre + "cache", **cfg) if CLS == "local" else env.base_odb(pre + "cache", **cfg)
             other = env.base_odb(pre + "other") if CLS == "local" else env.local_odb(pre + "other")
-            sha = env.local_odb(pre + "sha", hash_name="sha256") if CLS == "local" else env.base_odb(pre + "sha", hash_name="sha256")
+            # cube cross: the migration target is of the other store class (a local store fed by hardlinks out of an unprotecting base store)
+            sha_local = (CLS == "local") != bool(cube("cross", False))
+            sha = env.local_odb(pre + "sha", hash_name="sha256") if sha_local else env.base_odb(pre + "sha", hash_name="sha256")
             src = env.p("src")
             env.mkdir(src)
             files = {}
@@ -107,7 +109,7 @@ def h_ops(p0: bool, p1: bool, p2: bool, c0: int, c1: int, c2: int, pre: int) -> 
             elif preexist == 2:
                 env.write(cache.oid_to_path(hashlib.md5(b"foreign").hexdigest()), b"foreign", mode=0o444 if CLS == "local" else None)
         obj = None
-        stores = [(cache, "md5", CLS == "local"), (other, "md5", CLS != "local"), (sha, "sha256", CLS == "local")]
+        stores = [(cache, "md5", CLS == "local"), (other, "md5", CLS != "local"), (sha, "sha256", sha_local)]
         if "L" in OPS:
             with NoTracing():
                 legacy = env.local_odb("legacy", hash_name="md5-dos2unix", state=st)
